@@ -614,3 +614,29 @@ OPS = {'add': AddOp(), 'remove': RemoveOp(), 'fill_to': FillToOp(), 'get_volume'
 
 def run(opname, pid, case):
     return clib.run_op(OPS[opname], pid, tuple(case))
+
+
+# ------------------------------------------------------------------------------------------------ observers with a history
+def _with_observers(cls):
+    """The argument has already been asked its memoised observers (has_liquid, get_substances) when the operation runs;
+    the result must answer for ITS OWN contents (C10: a stale memo carried over by a copy is a wrong observer)."""
+    inv, em = cls.invoke, cls.emit
+
+    def invoke(self, I, st, case):
+        clib.prequery(I, st[0].obj)
+        I.writes.clear()
+        return inv(self, I, st, case)
+
+    def emit(self, I, out, st, case, finite=None):
+        em(self, I, out, st, case, finite=finite)
+        if out.kind == 'return' and isinstance(out.value, Obj) and out.value.cls.name == 'Container':
+            nw = len(I.writes)
+            clib.oblige_observers(I, 'result', out.value)
+            del I.writes[nw:]
+    cls.invoke, cls.emit = invoke, emit
+    cls.PROPS_OF = dict(cls.PROPS_OF, observers=['C10'])
+    return cls
+
+
+for _c in (AddOp, RemoveOp, FillToOp):
+    _with_observers(_c)
